@@ -152,6 +152,9 @@ def install():
                 if post_f != pre:
                     errs_f = RD.fsck(post_f)[1]
                     self.__dict__["_v_cache"] = None
+                    if len(RD.free_granules(post_f)) != len(F) or len(RD.free_slots(post_f)) != len(S):
+                        _v("C15", "disk-accounting", "REFUSED-ADD-CHANGED-FREE-SPACE", dict(w, free_granules_after=len(RD.free_granules(post_f)),
+                                                                                          free_slots_after=len(RD.free_slots(post_f)), error=str(e)[:80]))
                     if errs_f:
                         _v("C08", "fsck", "AFTER-REFUSED-ADD:" + errs_f[0][0], dict(w, fsck=[list(map(str, x)) for x in errs_f[:4]], error=str(e)[:80]))
             raise
